@@ -148,8 +148,9 @@ func runSelftest(prop, only string, verbose bool) (bool, int, []string) {
 			rev.Run()
 			continue
 		} else {
+			un := readUnclaimed(m.prop)
 			for _, r := range out.results {
-				if !r.O.Cover && r.V.Status != "unsat" {
+				if !r.O.Cover && r.V.Status != "unsat" && !un[r.O.Name] {
 					failing = append(failing, r.O.Name+" ("+r.V.Status+")")
 				}
 			}
